@@ -7,7 +7,7 @@ by calling beanquery.
 
 E  tables   for each of the 12 column datatypes (int, decimal, str, date, bool, set, dict, object, Amount,
             Position, Cost, Inventory): every column of 0..3 cells over the datatype's alphabet (NULL,
-            negatives, zero, differing precision, numbers whose rounding to the display precision carries into a new
+            negatives, zero, differing precision, equal numbers of different scale (0.5 / 0.50, 1 / TRUE in object columns), numbers whose rounding to the display precision carries into a new
             leading digit, cost labels of different lengths, single-position inventories before and after multi-lot ones of the same commodity, 1/3, scientific notation, six currencies, empty / multi-lot /
             seven-slot inventories ...), once with a one-letter header and once with a 20-letter header (quick
             tier: 0..2 cells under the long header);
@@ -124,13 +124,14 @@ def alphabets(seed, thorough):
     plus = (lambda *v: list(v)) if thorough else (lambda *v: [])
     full = {
         'int': [None, -300, 0, o_int, o_big],
-        'decimal': [None, D('-1.5'), D('0'), D('0.50'), o_dec, D('1E+3'), D('-0.001'), D(1) / D(3)] + plus(D('2'), D('1E-7')),
+        'decimal': [None, D('-1.5'), D('0'), D('0.50'), o_dec, D('1E+3'), D('-0.001'), D(1) / D(3), D('0.5')]     # 0.5 == 0.50, 0 == 0.00: equal numbers that render differently
+                   + plus(D('2'), D('1E-7'), D('0.00'), D('-1.500')),
         'str': [None, '', o_str, 'x' * 12, 'p,q', 'é"r', '  Indented', 'Cafe ', '  '] + plus('a', ' b '),
         'date': [None, datetime.date(2020, 2, 29), datetime.date(1999, 12, 31), datetime.date(900, 1, 1)],
         'bool': [None, True, False],
         'set': [None, frozenset(), frozenset({'a'}), frozenset({'a', 'bcd'})],
         'dict': [None, {}, {'k': 1}, {'filename': '<string>', 'lineno': 11}],
-        'object': [None, D('2.50'), 'x', datetime.date(2020, 1, 2), True, {'k': 1}],
+        'object': [None, D('2.50'), 'x', datetime.date(2020, 1, 2), True, {'k': 1}, 1],      # 1 == True, rendered differently
         'amount': [None, A(o_amt, 'USD'), A('-1000', 'HOOL'), A('0', 'EUR'), A('3.14159', 'USD'), A('-2.80750', 'USD'), A(carry, 'USD')]
                   + plus(A('100', 'JPY'), A('9.9996', 'HOOL')),
         'position': [None, hool1, P('-3', 'USD'), hool2, P('7', 'EUR'), P('-2.80750', 'USD'), P(carry, 'USD'), P('1', 'HOOL', C(carry, 'USD', d1))],
@@ -140,7 +141,7 @@ def alphabets(seed, thorough):
     }
     reduced = {
         'int': [None, -300, o_int],
-        'decimal': [None, D('-1.5'), D('0.50'), o_dec],
+        'decimal': [None, D('-1.5'), D('0.50'), o_dec] + plus(D('0.5')),
         'str': [None, '', o_str, ' b '],
         'date': [None, datetime.date(2020, 2, 29)],
         'bool': [None, True, False],
